@@ -23,7 +23,7 @@ RULE = ("cases from rng(seed, 14, 0, i): a file of 5..60 lines mixing all 10 sup
         "distinct = fingerprint of the file text; non-trivial = >= 3 supported line types and >= 1 junk line.")
 REQ = ["eval:objects-match-tokenizer", "eval:warnings-match-junk-lines", "eval:junk-removal-changes-nothing", "eval:entry-points-agree", "eval:custom-types-claim-own-lines", "eval:reload-after-another-file-identical",
        "line:VERTEX_SE2", "line:VERTEX_SE3:QUAT", "line:VERTEX_XY", "line:VERTEX_TRACKXYZ", "line:EDGE_SE2", "line:EDGE_SE3:QUAT", "line:EDGE_SE2_XY", "line:EDGE_SE3_TRACKXYZ",
-       "line:PARAMS_SE2OFFSET", "line:PARAMS_SE3OFFSET", "class:crlf", "class:several_param_ids", "class:junk:tag_tab", "class:junk:leading_space", "class:junk:wrong_case", "class:junk:control_chars", "class:file_name_with_percent_sign", "eval:loaded-objects-independent", "class:information_all_zero", "class:duplicate_edge_line"]
+       "line:PARAMS_SE2OFFSET", "line:PARAMS_SE3OFFSET", "class:crlf", "class:several_param_ids", "class:junk:tag_tab", "class:junk:leading_space", "class:junk:wrong_case", "class:junk:control_chars", "class:file_name_with_percent_sign", "class:quaternion_written_with_5-7_decimals", "eval:loaded-objects-independent", "class:information_all_zero", "class:duplicate_edge_line"]
 PLAN = {
     "quick": {"cases": 1500, "soft_s": 70, "min_nontrivial": 400, "require": REQ},
     "thorough": {"cases": 80000, "soft_s": 1300, "min_nontrivial": 20000, "require": REQ},
@@ -75,6 +75,9 @@ def render(rng, tag, fields, crlf):
     for kind, v in fields:
         if kind == "z":
             parts.append(str(rng.choice(["0", "0.0", "-0.0", "0e0", "+0", "0.", ".0", "0E+5"])))
+            continue
+        if isinstance(kind, str) and kind.startswith("d"):
+            parts.append(("%." + kind[1:] + "f") % v)  # dataset style: a fixed number of decimals
             continue
         parts.append(fmt_int(rng, v) if kind == "i" else fmt_float(rng, v, safe=(kind == "q")))
     seps = [" "] + [" " * int(rng.choice([1, 1, 1, 2, 3, 5])) for _ in range(len(parts) - 2)]
@@ -144,7 +147,13 @@ def gen_file(rng, ctx, with_custom):
         return num(m)
 
     def quat():
-        return [("f", x) for x in gen.unit_quat(rng)[0]]
+        q = gen.unit_quat(rng)[0]
+        if rng.random() < 0.3:
+            # as the public datasets write them: a unit quaternion rounded to 5-7 decimals (unit only to ~1e-6)
+            nd = int(rng.choice([5, 6, 6, 7]))
+            ctx.count("class:quaternion_written_with_5-7_decimals")
+            return [("d%d" % nd, x) for x in q]
+        return [("f", x) for x in q]
 
     for k in kinds:
         for _ in range(int(rng.integers(2, 5))):
@@ -304,7 +313,10 @@ def compare_loaded(ctx, g, verts, edges, params, feats, case, name="objects-matc
             elif same and r["type"] == "odo":
                 q = np.array(r["est"][3:])
                 qn = q / np.linalg.norm(q)
-                same = type(e.estimate) is M.PoseSE3 and est[:3] == r["est"][:3] and (np.array_equal(np.array(est[3:]), q) or min(np.abs(np.array(est[3:]) - qn).max(), np.abs(np.array(est[3:]) + qn).max()) <= 4 * R.EPS)
+                nq = float(np.linalg.norm(q))
+                raw_ok = (not math.isfinite(nq)) or nq == 0.0  # nothing to normalise to: the numbers as written are all there is
+                same = type(e.estimate) is M.PoseSE3 and est[:3] == r["est"][:3] and ((raw_ok and np.array_equal(np.array(est[3:]), q, equal_nan=True)) or
+                                                                                      min(np.abs(np.array(est[3:]) - qn).max(), np.abs(np.array(est[3:]) + qn).max()) <= 4 * R.EPS)
             elif same:
                 kp = R.POINT_OF[r["kind"]]
                 same = type(e.estimate) is M.CLS[kp] and M.same_numbers(kp, est, r["est"])
